@@ -756,6 +756,9 @@ func TestVerifStandin_C13(t *testing.T) {
 	toks := []string{`{`, `}`, `[`, `]`, `:`, `,`, `null`, `true`, `1`, `-1.5e1`, `""`, `"a"`, `"*"`, `"/"`, `"left"`, `"right"`, `"operator"`,
 		`"AND"`, `"RANGE"`, `"LIST"`, `"min"`, `"max"`, `"inclusive"`, `"distance"`}
 	maxToks := 4
+	if tier == "thorough" {
+		maxToks = 5
+	}
 	pwg.Add(1)
 	go func() {
 		defer pwg.Done()
@@ -786,7 +789,7 @@ func TestVerifStandin_C13(t *testing.T) {
 	}()
 
 	// ---- (5) seeded: random documents of depth <= 4 and byte-level mutations ----
-	nRandom, nMut := 150000, 150000
+	nRandom, nMut := 300000, 300000
 	if tier == "thorough" {
 		nRandom, nMut = 3000000, 3000000
 	}
